@@ -287,7 +287,7 @@ impl Prop for C03 {
     }
     fn meta(&self, _tier: Tier) -> Meta {
         Meta {
-            rule: "variant 'exh': bounded-exhaustive layouts — 3 chunk identities with sizes from {1,2,3} (27 assignments) plus a junk identity (only in the prior output) and an archive-only identity (only in the target); prior and target are ALL sequences of <= N slots (N=4 quick, N=5 thorough) over 4 symbols; indexes are built through ChunkIndex::add_chunk from non-overlapping tilings, then the real planner/executor runs on an instrumented in-memory output and the remaining chunks are fed as from the archive. 'rand'/'shuf': random layouts of up to 60 slots over up to 12 identities. 'scen': real content — prior output = edit-script derivative of the source, scanned by bitar's own chunker, all small configs, hash lengths 8..64, prior shorter/equal/longer, plus seeds. Oracles: final bytes == target (resized), the public reorder plan interpreted by the independent cell interpreter R4 never reads a destroyed chunk, and no reusable chunk stays in the clone index. Non-trivial = at least one copy whose destination overlaps another chunk's location (exh/rand/shuf) or at least one chunk moved in place (scen); distinct by Blake2 of the canonical case.".into(),
+            rule: "variant 'exh': bounded-exhaustive layouts — 3 chunk identities with sizes from {1,2,3} (27 assignments) plus a junk identity (only in the prior output) and an archive-only identity (only in the target); prior and target are ALL sequences of <= N slots (N=4 quick, N=5 thorough) over 4 symbols; indexes are built through ChunkIndex::add_chunk from non-overlapping tilings, then the real planner/executor runs on an instrumented in-memory output and the remaining chunks are fed as from the archive. 'rand'/'shuf': random layouts of up to 60 slots over up to 12 identities. 'scen': real content — prior output = edit-script derivative of the source, scanned by bitar's own chunker, all small configs, hash lengths 8..64, prior shorter/equal/longer, plus seeds. 'l2': the same scenarios through the real `bita clone --seed-output` (regular files and, through the hook, the block-device path), local and HTTP archives. Oracles: final bytes == target (resized), the public reorder plan interpreted by the independent cell interpreter R4 never reads a destroyed chunk, and no reusable chunk stays in the clone index. Non-trivial = at least one copy whose destination overlaps another chunk's location (exh/rand/shuf) or at least one chunk moved in place (scen); distinct by Blake2 of the canonical case.".into(),
             assumptions: vec!["indexes handed to the planner are non-overlapping tilings (the only shape a scan of the output can produce)".into()],
             ..Meta::default()
         }
@@ -328,10 +328,16 @@ impl Prop for C03 {
         cx.run_prop("rand", t.pick(300_000, 4_000_000), random_layout_strategy(), check_layout);
         cx.run_prop("shuf", t.pick(300_000, 4_000_000), shuffled_layout_strategy(), check_layout);
         cx.run_prop("scen", t.pick(24_000, 400_000), inplace_scenario_strategy(), scenario_case);
+        // the same scenarios through the real CLI (`bita clone --seed-output`): clone_cmd.rs has its own orchestration
+        // of scan, reorder, seeds and resize, which the L1 mirror only imitates
+        crate::props::l2scen::run_l2_variant(cx, "C03", t.pick(2400, 30_000), inplace_scenario_strategy().boxed(), |s, e, rec| {
+            rec.nontrivial = s.inplace && e.in_prior.len() > e.in_place_offsets.len();
+        });
     }
     fn replay(&self, _cx: &mut WorkerCtx, variant: &str, case: &Value) -> Result<(), String> {
         let mut rec = CaseRec::default();
         match variant {
+            "l2" => crate::props::l2scen::replay_l2("C03", case, &mut rec),
             "scen" => scenario_case(&serde_json::from_value(case.clone()).map_err(|e| e.to_string())?, &mut rec),
             _ => check_layout(&serde_json::from_value(case.clone()).map_err(|e| e.to_string())?, &mut rec),
         }
